@@ -141,8 +141,45 @@ theorem intToStr_toList (i : Int) : ∃ (neg : Bool) (c : Char) (cs : Str),
   · obtain ⟨c, cs, h, _, hall, _⟩ := natRepr_ok (-i).toNat
     exact ⟨true, c, cs, by rw [String.toList_append, h]; rfl, hall⟩
 
+/-! ### the Unicode transformation is the identity on what the writers produce (ASCII) -/
+
+theorem toNat_lt_of_isDigit {c : Char} (h : c.isDigit = true) : c.toNat < 128 := by
+  simp only [Char.isDigit, Bool.and_eq_true, decide_eq_true_eq] at h
+  have h2 := h.2
+  simp only [UInt32.le_iff_toNat_le] at h2
+  have e2 : ('9' : Char).val.toNat = 57 := rfl
+  have : c.toNat = c.val.toNat := rfl
+  omega
+
+theorem pyNorm_ascii : ∀ (s : Str), (∀ c ∈ s, c.toNat < 128) → pyNorm s = s
+  | [], _ => rfl
+  | c :: cs, h => by
+    have hc := h c List.mem_cons_self
+    have ih := pyNorm_ascii cs (fun x hx => h x (List.mem_cons_of_mem _ hx))
+    unfold pyNorm at ih ⊢
+    simp [List.map_cons, normChar, hc, ih]
+
+theorem ascii_of_digits_sign (neg : Bool) (ds : Str) (h : ∀ x ∈ ds, x.isDigit = true ∨ x = '.') :
+    ∀ c ∈ (if neg then ['-'] else []) ++ ds, c.toNat < 128 := by
+  intro c hc
+  have : c = '-' ∨ c ∈ ds := by
+    cases neg <;> simp at hc
+    · exact Or.inr hc
+    · exact hc
+  rcases this with rfl | hc
+  · decide
+  · rcases h c hc with h | rfl
+    · exact toNat_lt_of_isDigit h
+    · decide
+
+theorem pyNorm_intToStr (i : Int) : pyNorm (intToStr i).toList = (intToStr i).toList := by
+  obtain ⟨neg, c, cs, hl, hall⟩ := intToStr_toList i
+  rw [hl]
+  exact pyNorm_ascii _ (ascii_of_digits_sign neg (c :: cs) (fun x hx => Or.inl (by
+    rw [List.all_eq_true] at hall; exact hall x hx)))
+
 theorem tryMakeNumber_intToStr (i : Int) : tryMakeNumber (intToStr i) = .int i := by
-  simp [tryMakeNumber, parseIntLit_intToStr]
+  simp [tryMakeNumber, pyNorm_intToStr, parseIntLit_intToStr]
 
 theorem intToStr_ne_empty (i : Int) : intToStr i ≠ "" := by
   intro h
@@ -350,9 +387,15 @@ theorem parseFloatLit_fmtFixed (n : Nat) (hn : n ≠ 0) (x : Dbl) :
   simp only [e1, e2, e3, Bool.or_false, Bool.false_eq_true, if_false]
 
 /-- `_try_make_number('%.nf' % x)` is the float written: the decimal nearest to x with n digits -/
+theorem pyNorm_fmtFixed (n : Nat) (hn : n ≠ 0) (x : Dbl) : pyNorm (fmtFixed n x) = fmtFixed n x := by
+  rw [fmtFixed_eq n hn]
+  obtain ⟨c, cs, z, hb, _, _, _, hall⟩ := fixedBody_shape n hn x
+  rw [hb]
+  exact pyNorm_ascii _ (ascii_of_digits_sign x.neg (c :: cs) hall)
+
 theorem tryMakeNumber_fmtFixed (n : Nat) (hn : n ≠ 0) (x : Dbl) :
     tryMakeNumber (String.ofList (fmtFixed n x)) = .float x.neg (scaled n x) (-(n : Int)) := by
-  simp [tryMakeNumber, String.toList_ofList, parseIntLit_fmtFixed n hn, parseFloatLit_fmtFixed n hn]
+  simp [tryMakeNumber, String.toList_ofList, pyNorm_fmtFixed n hn, parseIntLit_fmtFixed n hn, parseFloatLit_fmtFixed n hn]
 
 /-- "to the written precision": the written decimal is within half a unit of the last digit of |x|
 (x = ±m·2^e; exact for e ≥ 0; for e < 0 the distance |r·2^q − m·10^n| is at most 2^q / 2, q = −e) -/
